@@ -53,6 +53,8 @@ def plan(tier: str, seed: int) -> list[dict]:
         cases.append({"k": "bigcap", "i": i, "weight": 4})
     for i in range(16 if tier == "quick" else 400):
         cases.append({"k": "multi", "i": i, "placement": "shuffle", "weight": 2})
+    for i in range(16 if tier == "quick" else 400):
+        cases.append({"k": "desc", "i": i, "placement": "shuffle", "weight": 2})
     cases.append({"k": "fixture", "name": "sesparse.vmdk.gz", "weight": 10})
     return cases
 
@@ -148,6 +150,61 @@ def run(case: dict, ctx) -> dict:
         res["sample"] = {"fixture": case["name"], "size": model.size, "n_requests": len(reqs)}
         return res
 
+    if k == "desc":
+        # extents named by a descriptor file: every extent occupies exactly the sectors its line declares, also when the flat
+        # backing file is longer than that (preallocated / rounded up) and other extents follow
+        from pathlib import Path
+
+        from vf.core import ConcatModel
+
+        d = Path(ctx.tmpdir())
+        lines, parts = [], []
+        for j in range(rng.randrange(2, 5)):
+            kind = rng.choice(["FLAT", "FLAT", "VMFS", "SPARSE", "VMFSSPARSE"])
+            tg = rng.getrandbits(48)
+            if kind in ("FLAT", "VMFS"):
+                nsec = rng.randrange(1, 400)
+                sfx, lay, m = w.build_flat(rng, nsectors=nsec + rng.choice([0, 0, 1, 7, 64]), tag=tg)
+                cap_j = nsec
+            elif kind == "SPARSE":
+                cap_j = rng.randrange(1, 900)
+                sfx, lay, m = w.build_hosted(rng, capacity=cap_j, grain=rng.choice([1, 8, 16]), ngte=64, placement="shuffle", tag=tg)
+            else:
+                cap_j = rng.randrange(1, 900)
+                sfx, lay, m = w.build_cowd(rng, capacity=cap_j, grain=rng.choice([1, 8]), placement="shuffle", tag=tg)
+            fn = f"e{j}-{kind.lower()}.vmdk"
+            sfx.write_to(d / fn)
+            lines.append(f'RW {cap_j} {kind} "{fn}"' + (" 0" if kind in ("FLAT", "VMFS") and rng.random() < 0.6 else ""))
+            parts.append(Model(cap_j * SECTOR, [lay]))
+        (d / "disk.vmdk").write_text(w.descriptor_text(lines, create_type="twoGbMaxExtentFlat"))
+        model = ConcatModel(parts)
+        o = call(VMDK, d / "disk.vmdk")
+        if not o.ok:
+            res["viol"].append({"what": f"open failed on a well-formed descriptor: {o.brief()}", "mech": MECH, "detail": {"tb": o.tb, "lines": lines}})
+            return res
+        v = o.value
+        if v.size != model.size:
+            res["viol"].append({"what": "size is not the sum of the declared extent sizes", "mech": MECH, "detail": {"got": v.size, "exp": model.size, "lines": lines}})
+        bounds = []
+        acc = 0
+        for p_ in parts:
+            acc += p_.size
+            bounds.append(acc)
+        reqs, _ = gen_requests(rng, model.size, [8192], n_random=30, extra=bounds)
+        compare_reads(v, model, reqs, res, MECH)
+        for _ in range(8):
+            if res["viol"]:
+                break
+            s0 = rng.randrange(model.size // SECTOR)
+            c0 = rng.randrange(1, min(model.size // SECTOR - s0, 200) + 1)
+            o2 = call(v.read_sectors, s0, c0)
+            if not o2.ok or o2.value != model.expected(s0 * SECTOR, c0 * SECTOR):
+                res["viol"].append({"what": "read_sectors content mismatch", "mech": MECH, "detail": {"sector": s0, "count": c0, "outcome": o2.brief(), "lines": lines}})
+        res["cnt"]["descriptor_extent_cases"] = 1
+        res["nontrivial"] = True
+        res["sig"] = ("desc", case["i"], model.size)
+        res["sample"] = {"descriptor_lines": lines}
+        return res
     if k == "multi":
         # the same extent kinds as later members of an explicit handle list (each extent keeps its own sector range)
         from vf import streams
@@ -192,7 +249,7 @@ def run(case: dict, ctx) -> dict:
         sf, layer, meta = w.build_hosted(
             rng, capacity=cap, grain=grain, ngte=ngte, states=st, placement=placement, tag=tag, version=rng.choice([1, 1, 2, 3]),
             zero_gte=zero_gte, redundant=rng.random() < 0.4, descriptor=desc, align_grains=rng.random() < 0.6,
-            tables_after_data=rng.random() < 0.3, far_sector=far,
+            tables_after_data=rng.random() < 0.3, far_sector=far, gd_in_footer=(not far and rng.random() < 0.2),
         )
     elif k == "stream":
         grain = rng.choice([8, 16, 32, 64, 128])
